@@ -221,8 +221,9 @@ func (r *remoteReplicator) IsReady() bool {
 		r.ResetReplicaIndex(needResetReplicaIdx)
 		r.state.Store(&state{state: models.ReplicatorReadyState})
 		return true
-	case remoteLastReplicaAckIdx > appendIdx:
+	case remoteLastReplicaAckIdx >= appendIdx:
 		// new write data will be lost, because leader's lost old wal data
+		// (>=: appendIdx is the next index to append, a follower holding it is already ahead)
 		r.ResetAppendIndex(nextReplicaIdx)
 		r.statistics.ResetAppendIdx.Incr()
 	}
